@@ -11,7 +11,7 @@
    algorithm equal to CRC-32/MPEG-2, whence "the CRC of the whole section is zero". *)
 From Gots Require Import Base.Prelude Model.Pts Model.Scte Model.ScteEnc Spec.Scte35Spec
   Proofs.ScteExpected Proofs.ScteLogical Proofs.ScteDecode Proofs.ScteEncode Proofs.ScteRoundtrip Proofs.ScteSetters
-  Proofs.ScteCanonical.
+  Proofs.ScteCanonical Proofs.ScteClean.
 Import Scte ScteEnc Scte35Spec.
 Local Open Scope N_scope.
 
@@ -43,6 +43,15 @@ Theorem C09_decode_encode : forall fs st, decodable fs st ->
   new_scte35 (0 :: fst (update_data st)) = Ok (expected (logical fs st)).
 Proof. exact decode_encode. Qed.
 Print Assumptions C09_decode_encode.
+
+(* ... and the same field values: when the fields hidden by a flag hold their zero values (`clean`,
+   Proofs/ScteClean.v: e.g. no duration kept beside a cleared duration flag, a cancelled command / descriptor
+   otherwise empty, no stuffing), decoding returns exactly the struct after UpdateData, hence every getter
+   (including Data(), the descriptor back-references, PTS()) *)
+Theorem C09_decode_encode_getters : forall fs st, decodable fs st -> clean st ->
+  new_scte35 (0 :: fst (update_data st)) = Ok (snd (update_data st)).
+Proof. exact decode_encode_clean. Qed.
+Print Assumptions C09_decode_encode_getters.
 
 (* re-encoding a decoded canonical section reproduces it byte for byte.  `canonical` (Proofs/ScteCanonical.v): supported,
    sap_type 3, exact splice_command_length, no stuffing, foreign descriptors before segmentation descriptors,
@@ -251,4 +260,12 @@ Proof.
     repeat split; intros; try discriminate; try reflexivity;
     try (exfalso; match goal with H : _ <> _ |- _ => apply H; reflexivity end);
     repeat (constructor; cbn [co_tag co_off u_type u_len u_upid]; repeat split; try reflexivity).
+Qed.
+Example C09_example_clean : clean ex_state.
+Proof.
+  unfold clean, ex_state. cbn [s_id s_stuffing s_cmd s_descs s_pts].
+  split; [reflexivity|]. split; [reflexivity|]. split.
+  { unfold clean_cmd, clean_insert. cbn. repeat split; intros; try discriminate; reflexivity. }
+  split; [|intros; discriminate].
+  constructor; [|constructor; [|constructor]]; unfold clean_desc; cbn; repeat split; intros; try discriminate; try reflexivity; auto.
 Qed.
